@@ -649,6 +649,13 @@ func (a *align) RefSites(name string, sites []int) (refsites []int, err error) {
 		}
 	}
 
+	// Sites after the last non gap character of the reference sequence
+	for _, s := range sites {
+		if s >= len(seq)-ngaps {
+			return nil, fmt.Errorf("site is outside reference sequence : %d", s)
+		}
+	}
+
 	return
 }
 
